@@ -27,14 +27,18 @@ Proof.
     + discriminate.
 Qed.
 
-Lemma getattrs_err : forall w parts owner x, getattrs w owner parts = inl x -> x = XImportError.
+Lemma getattrs_err : forall w parts owner s x, fst (getattrs w owner parts s) = inl x -> x = XImportError.
 Proof.
-  intros w parts. induction parts as [| p r IH]; intros owner x; simpl.
+  intros w parts. induction parts as [| p r IH]; intros owner s x; simpl.
   - discriminate.
   - destruct (lookup_attr (w_attr w) owner p) as [[y |] |].
-    + rewrite getattr_catches_all. intro H. inversion H. apply getattr_is_importerror.
+    + simpl. rewrite getattr_catches_all. intro H. inversion H. apply getattr_is_importerror.
     + apply IH.
-    + try rewrite getattr_catches_all. intro H. inversion H. apply getattr_is_importerror.
+    + destruct (mem_name owner (w_lazy w)).
+      * destruct (import_module w (owner ++ [p]) s) as [[y |] s1]; simpl.
+        -- rewrite getattr_catches_all. intro H. inversion H. apply getattr_is_importerror.
+        -- apply IH.
+      * simpl. try rewrite getattr_catches_all. intro H. inversion H. apply getattr_is_importerror.
 Qed.
 
 Lemma dynamic_import_err : forall w n paths s x, fst (dynamic_import w n paths s) = inl x -> x = XImportError.
@@ -43,7 +47,7 @@ Proof.
   destruct (with_sys_path_fst name paths
               (fun s0 => match dyn_attempts w (rev n) [] s0 with
                          | (inl x, s1) => (inl x, s1)
-                         | (inr (m, objs), s1) => (getattrs w m objs, s1)
+                         | (inr (m, objs), s1) => getattrs w m objs s1
                          end) s) as [s0 E].
   rewrite E. clear E.
   pose proof (dyn_attempts_err w (rev n) [] s0) as D.
